@@ -7,3 +7,15 @@ claim("C01", "property-based testing (Hypothesis) against an independent numpy o
 claim("C02", "property-based testing (Hypothesis); oracle = quadratic fitted to evaluate_ln outputs, integrated in closed form",
       "Generated measures after 0-3 history steps (multiply/hadamard/slice/queries) and densities from every route (constructor combinations, get_density, slice, marginal, linear sum, condition_on(x), cond(x), joint/marginal/conditional transformations for all 5 linear conditional classes and batch combos): the function the object evaluates to is recovered from evaluate_ln alone and its integral, mean and covariance are compared with the reported mass / 1 / exposed mu, Sigma.",
       _NOTE, "DESIGN.md §2 C02")
+claim("C07", "property-based testing (Hypothesis) against an independent numpy oracle (chain rule)",
+      "All 5 linear conditional classes x both dimension regimes x batch combos (1,1),(1,n),(n,1): joint.evaluate_ln is compared pointwise with ln N(y;Mx+b,S)+ln N(x;mu,Sigma) from numpy at layout rc*Rx+rx, and the returned mu/Sigma/Lambda/ln_det_Sigma with a dense block construction.",
+      _NOTE, "DESIGN.md §2 C07")
+claim("C08", "property-based testing (Hypothesis); two independent numpy oracles (moment form and information-form integral over x)",
+      "Marginal transformation for all classes/combos compared with N(M mu+b, S+M Sigma M'), with the closed-form integral over x of the information form of p(y|x)p(x), and with the y-marginal of the joint transformation.",
+      _NOTE, "DESIGN.md §2 C08")
+claim("C09", "property-based testing (Hypothesis); Bayes identity against numpy and slice-wise round trips",
+      "post(y)(x) is compared with ln p(y|x)+ln p(x)-ln p(y) from numpy; T_cond(T_cond(c,px),py) and T_marg(T_cond(c,px),py) must return the original conditional / prior per slice.",
+      _NOTE, "DESIGN.md §2 C09")
+claim("C10", "property-based testing (Hypothesis) against an independent numpy oracle; known-finding matcher for the Dx/Dy constant",
+      "set_y factors for all classes, Dx!=Dy, broadcast and paired observations are evaluated against ln N(y_i;Mx_n+b,S); well-formedness (R, shapes, slice, product) and the posterior from prior*product() against numpy. The listed finding KF-SETY-NORM is recognised only by its exact constant k(Dy-Dx)/2 ln 2pi.",
+      _NOTE, "DESIGN.md §2 C10")
